@@ -3,8 +3,11 @@ package decoder
 import (
 	"context"
 
+	"github.com/hashicorp/hcl-lang/decoder/internal/schemahelper"
 	"github.com/hashicorp/hcl-lang/lang"
+	"github.com/hashicorp/hcl-lang/schema"
 	"github.com/hashicorp/hcl/v2"
+	"github.com/hashicorp/hcl/v2/hclsyntax"
 )
 
 const vf = "test.tf"
@@ -28,6 +31,10 @@ func verifSeedDecoder(i int) (*PathDecoder, verifSeed) {
 	pd, err := d.Path(lang.Path{Path: "dir"})
 	if err != nil {
 		panic(err)
+	}
+	// as a language server does: collect the origins of the path once and keep them in the context
+	if origins, err := pd.CollectReferenceOrigins(); err == nil {
+		pc.ReferenceOrigins = origins
 	}
 	return pd, s
 }
@@ -68,6 +75,81 @@ func VerifP_C01C02C04C05C06_Completion(i int) {
 	verifReach("end")
 }
 
+// verifStructuralTokens: the oracle for attribute-name, block-type and label
+// tokens, computed from the (stretched) syntax tree and the effective schema.
+func verifStructuralTokens(body *hclsyntax.Body, bs *schema.BodySchema, parent lang.SemanticTokenModifiers) []lang.SemanticToken {
+	var out []lang.SemanticToken
+	if bs == nil {
+		return out
+	}
+	join := func(a lang.SemanticTokenModifiers, more ...lang.SemanticTokenModifiers) lang.SemanticTokenModifiers {
+		r := lang.SemanticTokenModifiers{}
+		r = append(r, a...)
+		for _, m := range more {
+			r = append(r, m...)
+		}
+		return r
+	}
+	for name, attr := range body.Attributes {
+		as, ok := bs.Attributes[name]
+		if !ok {
+			if bs.Extensions != nil && bs.Extensions.Count && name == "count" {
+				as = schemahelper.CountAttributeSchema()
+			} else if bs.Extensions != nil && bs.Extensions.ForEach && name == "for_each" {
+				as = schemahelper.ForEachAttributeSchema()
+			} else if bs.AnyAttribute != nil {
+				as = bs.AnyAttribute
+			} else {
+				continue
+			}
+		}
+		out = append(out, lang.SemanticToken{Type: lang.TokenAttrName, Modifiers: join(parent, as.SemanticTokenModifiers), Range: attr.NameRange})
+	}
+	for _, block := range body.Blocks {
+		bsch, ok := bs.Blocks[block.Type]
+		if !ok {
+			continue
+		}
+		bm := join(parent, bsch.SemanticTokenModifiers)
+		out = append(out, lang.SemanticToken{Type: lang.TokenBlockType, Modifiers: bm, Range: block.TypeRange})
+		for i, lr := range block.LabelRanges {
+			if i < len(bsch.Labels) {
+				out = append(out, lang.SemanticToken{Type: lang.TokenBlockLabel, Modifiers: join(bm, bsch.Labels[i].SemanticTokenModifiers), Range: lr})
+			}
+		}
+		if block.Body != nil {
+			merged, _ := schemahelper.MergeBlockBodySchemas(block.AsHCLBlock(), bsch)
+			out = append(out, verifStructuralTokens(block.Body, merged, bm)...)
+		}
+	}
+	return out
+}
+
+func verifAllExprRanges(body *hclsyntax.Body) []hcl.Range {
+	var out []hcl.Range
+	for _, a := range body.Attributes {
+		out = append(out, a.Expr.Range())
+	}
+	for _, b := range body.Blocks {
+		if b.Body != nil {
+			out = append(out, verifAllExprRanges(b.Body)...)
+		}
+	}
+	return out
+}
+
+func verifSameModifiers(a, b lang.SemanticTokenModifiers) bool {
+	if len(a) != len(b) {
+		return false
+	}
+	for i := range a {
+		if a[i] != b[i] {
+			return false
+		}
+	}
+	return true
+}
+
 func VerifP_C01C02C04C05C13_SemTok_N() int { return len(verifSeedList()) }
 func VerifP_C01C02C04C05C13_SemTok_Name(i int) string { return verifSeedList()[i].name }
 func VerifP_C01C02C04C05C13_SemTok(i int) {
@@ -89,6 +171,34 @@ func VerifP_C01C02C04C05C13_SemTok(i int) {
 					}
 				}
 				verifAssert(known, "C13:token-type-advertised")
+			}
+			// exactness of the structural tokens against the oracle
+			body := d.pathCtx.Files[vf].Body.(*hclsyntax.Body)
+			want := verifStructuralTokens(body, d.pathCtx.Schema, lang.SemanticTokenModifiers{})
+			exprs := verifAllExprRanges(body)
+			for _, t := range toks {
+				if t.Type == lang.TokenAttrName || t.Type == lang.TokenBlockType || t.Type == lang.TokenBlockLabel {
+					// either one of the schema-known structural elements, or part of a value (type declarations mark object attribute names)
+					ok := false
+					for _, w := range want {
+						if w.Type == t.Type {
+							ok = verifOr(ok, verifAnd(t.Range.Start.Byte == w.Range.Start.Byte, t.Range.End.Byte == w.Range.End.Byte))
+						}
+					}
+					for _, e := range exprs {
+						ok = verifOr(ok, verifAnd(e.Start.Byte <= t.Range.Start.Byte, t.Range.End.Byte <= e.End.Byte))
+					}
+					verifAssert(ok, "C13:no-structural-token-for-unknown-elements")
+				}
+			}
+			for _, w := range want {
+				found := false
+				for _, t := range toks {
+					if t.Type == w.Type && verifSameModifiers(t.Modifiers, w.Modifiers) {
+						found = verifOr(found, verifAnd(t.Range.Start.Byte == w.Range.Start.Byte, t.Range.End.Byte == w.Range.End.Byte))
+					}
+				}
+				verifAssert(found, "C13:structural-token-with-inherited-modifiers-present")
 			}
 		}
 	})
